@@ -263,6 +263,7 @@ func (w *tmWorld) parseWire(c *tmConn, idx int, st tmStep) {
 // context (a transport need not), so that a call whose deadline has already
 // passed still reaches the wire; the write is logged where it happens.
 type tmClientEnd struct {
+	junk  string // a malformed timeout value the caller's metadata carries (not logged as the library's header)
 	w     *tmWorld
 	l     *link
 	wrote bool
@@ -277,8 +278,13 @@ func (t *tmClientEnd) Write(ctx context.Context, r *goat.Rpc) error {
 		e := ev("PWire")
 		e.C, e.Code = t.w.nowUs(), 0
 		n := 0
+		junk := t.junk
 		for _, kv := range r.GetHeader().GetHeaders() {
 			if lowerASCII(kv.GetKey()) != timeoutKey {
+				continue
+			}
+			if junk != "" && kv.GetValue() == junk { // the malformed entry the caller's own metadata carries: not the library's
+				junk = ""
 				continue
 			}
 			if n++; n == 1 {
@@ -304,8 +310,13 @@ func lowerASCII(s string) string {
 
 func (w *tmWorld) prop(idx int, st tmStep) {
 	c := w.connect()
-	cc := goat.NewClientConn(&tmClientEnd{w: w, l: c.l}, "cli", "srv")
+	cc := goat.NewClientConn(&tmClientEnd{w: w, l: c.l, junk: st.Pay}, "cli", "srv")
 	ctx := metadata.AppendToOutgoingContext(c.ctx, tokenKey, strconv.Itoa(idx))
+	if st.Pay != "" {
+		// the application (or an interceptor) has put something under the timeout key that is not wire format:
+		// it is ignored, the caller's deadline still reaches the handler
+		ctx = metadata.AppendToOutgoingContext(ctx, []string{"grpc-timeout", "GRPC-Timeout", "Grpc-Timeout"}[idx%3], st.Pay)
+	}
 	cancel := context.CancelFunc(func() {})
 	if st.What == "dl" {
 		ctx, cancel = context.WithTimeout(ctx, time.Duration(st.To))
